@@ -13,6 +13,16 @@ def P(src, variant, name, args=None, tiers=('quick', 'thorough'), tier_args=None
 
 
 CHECKS = {
+    'C09': {
+        'engine': 'numx',
+        'rule': 'numeral lattices vs strtod',
+        'parts': [
+            P('props/C09.cpp', 'fast', 'lattice-fast'),
+            P('props/C09.cpp', 'asan', 'lattice-asan', tier_args={'quick': ['--sig', '99', '--patterns', '4', '--strlen', '5'],
+                                                                 'thorough': ['--sig', '999', '--patterns', '16', '--strlen', '6']}),
+        ],
+        'floor': {'quick': 10, 'thorough': 10},
+    },
     'C06': {
         'engine': 'langx',
         'rule': 'generated RFC 8259 documents vs reference parser',
